@@ -137,9 +137,9 @@ def pattern_lists(rng, count):
             return ["xor", e, x]
         return ["ite", x, e, rng.choice(base)]
 
-    off = rng.randrange(18) if count < 18 else 0
+    off = rng.randrange(20) if count < 20 else 0
     for i in range(count):
-        kind = (i + off) % 18
+        kind = (i + off) % 20
         k = rng.randint(2, 4)
         vs = rng.sample(base, k)
         terms = [v if rng.random() < 0.7 else sub(1) for v in vs]
@@ -227,6 +227,19 @@ def pattern_lists(rng, count):
             e = ["or", left, right] if rng.random() < 0.5 else ["or", right, left]
             if rng.random() < 0.3:
                 e = ["xor", e, rng.choice(others)]
+        elif kind in (18, 19):  # compositions of "obvious" two-operand nodes over a symbol and its own negation, under every
+            # operator (a rule written for s & ~s / s | ~s must not fire on s ^ ~s or Implies(s, ~s) that take their place)
+            def obvious():
+                x = rng.choice(base)
+                a, b = (x, ["not", x]) if rng.random() < 0.5 else (["not", x], x)
+                return [rng.choice(["and", "or", "xor", "imp"]), a, b]
+
+            parts = [obvious() for _ in range(rng.randint(2, 3))]
+            if rng.random() < 0.4:
+                parts[rng.randrange(len(parts))] = ["not", obvious()]
+            e = [rng.choice(["and", "or"])] + parts
+            if kind == 19:
+                e = [rng.choice(["or", "and", "xor"]), rng.choice(base), e]
         else:  # mix
             e = ["or", ["and", sub(1), sub(1)], ["and", sub(1), sub(1)], ["not", sub(1)]]
         e = wrap(e)
